@@ -126,6 +126,9 @@ def classify(v: dict) -> str | None:
 
 
 SPECIAL = [
+	'class A:\n\tdef f(cls, a: int) -> int:\n\t\treturn a\n\t@classmethod\n\tdef make(klass) -> None:\n\t\tpass\n\t@staticmethod\n\tdef g(cls) -> None:\n\t\tpass\n\tdef h(this) -> None:\n\t\tpass\ndef k(cls) -> None:\n\tpass\n',
+	'x = a - (b + c)\ny = a - (b - c)\nz = a or (b or c)\nw = a | (b | c)\nv = a and (b and c)\nu = (a - b) - c\nt = a ^ (b ^ c)\ns = a & (b & c)\n',
+	'with lock:\n\tpass\nwith a as b:\n\tpass\nwith open(p) as f, guard:\n\tpass\nwith self:\n\tpass\n',
 	'class A(object):\n\tpass\nclass B(Base, object):\n\tpass\nclass C(Generic[T], Base):\n\tpass\ndef f() -> None:\n\tclass D(object):\n\t\tpass\n',
 	'x = 1e5\ny = 2E10\nz = 1e-3\nw = 1.5e3\nv = 5.\nu = .25\nt = 0x1F\ns = 1_000\n',
 	'x = a & b ^ c\ny = a ^ b & c\nz = a | b ^ c & d\nw = a ^ b | c\n',
